@@ -404,20 +404,44 @@ def failmon(config):
     return os.path.join(d, 'failmon')
 
 
-def meson_lib(config):
+def stale_inline(config):
+    """a table file as an EARLIER in-tree build would have left it in src/ (git-ignored): the generator output of this tree with the third
+    decimal of every number written in %.10E form raised by one - every table (and every spline coefficient) differs by ~1e-3 relative"""
+    inl = inline(config)
+
+    def mk(d):
+        t = open(inl, encoding='latin1').read()
+        t, n = re.subn(r'(?<![\w.])(\d\.\d\d)(\d)(\d{7}E[+-]\d\d)', lambda m: m.group(1) + str((int(m.group(2)) + 1) % 10) + m.group(3), t)
+        if n < 100000:
+            raise BuildError('only %d literals of the generated table could be made stale' % n)
+        open(os.path.join(d, 'xrayglob_inline.c'), 'w', encoding='latin1').write(t)
+    return os.path.join(_target('stale-inline-' + config, mk), 'xrayglob_inline.c')
+
+
+def meson_lib(config, dirty=False):
     """the library exactly as the project's own build system makes it (its compiler arguments, its visibility settings, its generator run):
-    a copy of the working tree (without .git) is built with meson in the cache; returns dict(dir, so, incs).  The hook guard is NOT defined."""
+    a copy of the working tree (without .git) is built with meson in the cache; returns dict(dir, so, incs).  The hook guard is NOT defined.
+    dirty: the copy additionally holds what an earlier in-tree (autotools) build leaves behind and .gitignore hides - a stale
+    src/xrayglob_inline.c generated from OTHER data, stale objects - which the build must not pick up"""
+    stale = stale_inline(config) if dirty else None
+
     def mk(d):
         src = os.path.join(d, 'tree')
         _run(['rsync', '-a', '--exclude=.git', '--exclude=_build', '--exclude=_b', REPO + '/', src + '/'])
         if config == 'kissel':
             shutil.copyfile(kissel_dat(), os.path.join(src, 'data', 'kissel_pe.dat'))
+        if dirty:
+            shutil.copyfile(stale, os.path.join(src, 'src', 'xrayglob_inline.c'))
+            shutil.copyfile(stale, os.path.join(src, 'xrayglob_inline.c'))
+            for o in ('src/xrayglob_inline.o', 'src/xrayglob_inline.lo', 'src/.libs/xrayglob_inline.o'):
+                os.makedirs(os.path.dirname(os.path.join(src, o)), exist_ok=True)
+                open(os.path.join(src, o), 'wb').write(b'\x7fELF stale object of an earlier build\n')
         b = os.path.join(d, 'b')
         _run(['meson', 'setup', b, src, '-Dpython-bindings=disabled', '-Dpython-numpy-bindings=disabled', '-Dfortran-bindings=disabled'], timeout=1800)
         _run(['meson', 'compile', '-C', b, 'xrl'], timeout=3600)
         if not os.path.exists(os.path.join(b, 'src', 'libxrl.so')):
             raise BuildError('meson did not produce src/libxrl.so')
-    d = _target('lib-%s-meson' % config, mk)
+    d = _target('lib-%s-meson%s' % (config, '-dirty' if dirty else ''), mk)
     return dict(dir=os.path.join(d, 'b', 'src'), so=os.path.join(d, 'b', 'src', 'libxrl.so'), cfgdir=os.path.join(d, 'b'))
 
 
